@@ -228,9 +228,16 @@ class Tree:
                         paths[t] = p
                         rec(t, p)
                 elif n['k'] == 'f':
-                    with open(p, 'wb') as f:
+                    q = p
+                    if n.get('dev', self.nodes[i]['dev']) != self.nodes[i]['dev'] and self.nodes[i]['dev'] == 1 and shm_base is not None:
+                        # a file on the other device inside a directory of this one: lives under shm_base, linked in (a file symlink)
+                        shm_count[0] += 1
+                        os.makedirs(os.path.join(shm_base, f'x{shm_count[0]}'))
+                        q = os.path.join(shm_base, f'x{shm_count[0]}', name)
+                        os.symlink(q, p)
+                    with open(q, 'wb') as f:
                         f.write(n['data'])
-                    os.utime(p, ns=(int(round(n['mtime'] * 10**9)), int(round(n['mtime'] * 10**9))))
+                    os.utime(q, ns=(int(round(n['mtime'] * 10**9)), int(round(n['mtime'] * 10**9))))
                     paths[t] = p
                 else:
                     if n['kind'] == 'fifo':
